@@ -265,7 +265,11 @@ func (b *Bundle) SourceForLocalPath(p string) (sourceaddrs.FinalSource, error) {
 		if found {
 			// We've found multiple possible source addresses, so we
 			// need to decide which one to keep.
-			if len(candidateAddr.String()) > len(pkgAddr.String()) {
+			// (Among addresses of equal length we keep the one that sorts
+			// first, so that the answer doesn't depend on map iteration
+			// order.)
+			candidateStr, currentStr := candidateAddr.String(), pkgAddr.String()
+			if len(candidateStr) > len(currentStr) || (len(candidateStr) == len(currentStr) && candidateStr > currentStr) {
 				continue
 			}
 		}
